@@ -11,7 +11,8 @@ every rational `p` / `thr` and every order oracle (= every way NumPy may break t
 * `teachers_round_spec`, `teachers_round_near`, `teachers_round_tie` — round half away from zero;
 * `tp_param`, `tp_count`, `tp_strongest`, `tp_diag`, `tp_symm`, `tp_symm_input`, `tp_entries`,
   `tp_strongest_asym`, `tp_strongest_sym`, `tp_total`, `tp_error` — `threshold_proportional`;
-* `ta_spec`; `binarize_spec`; `normalize_max`, `normalize_nan`; `invert_spec`, `invert_involutive`;
+* `ta_spec`; `binarize_spec`; `normalize_max`, `normalize_nan`, `normalize_maxAbs`, `normalize_idempotent`,
+  `binarize_normalize`; `invert_spec`, `invert_involutive`;
   `weight_conversion_dispatch`.
 -/
 open Finset
@@ -543,6 +544,46 @@ theorem normalize_nan (W : AMat ℚ n) : normalize W = none ↔ ∀ i j, W.get i
 example : normalize Wasy = some (AMat.ofFn fun i j => if i.val + 1 = j.val then 2 / 7 else
     if i.val = 2 ∧ j.val = 0 then 1 else 0) := by decide +kernel
 example := normalize_max Wasy ⟨2, 0, by decide +kernel⟩
+
+/-- a normalised matrix has largest magnitude exactly 1 -/
+theorem normalize_maxAbs {W R : AMat ℚ n} (h : normalize W = some R) : maxAbs R = 1 := by
+  have hW : ∃ i j, W.get i j ≠ 0 := by
+    by_contra hc
+    have : normalize W = none := (normalize_nan W).mpr (by
+      intro i j; by_contra h0; exact hc ⟨i, j, h0⟩)
+    rw [this] at h; simp at h
+  obtain ⟨R', hR', _, _, hle, ⟨a, b, hab⟩⟩ := normalize_max W hW
+  rw [h] at hR'; cases hR'
+  obtain ⟨_, hle', hex⟩ := maxAbs_spec R
+  have h1 : 1 ≤ maxAbs R := hab ▸ hle' a b
+  rcases hex with h0 | ⟨i, j, hij⟩
+  · rw [h0] at h1; norm_num at h1
+  · exact le_antisymm (hij ▸ hle i j) h1
+
+/-- `normalize` is idempotent: normalising an already normalised matrix returns it unchanged -/
+theorem normalize_idempotent {W R : AMat ℚ n} (h : normalize W = some R) : normalize R = some R := by
+  have hm := normalize_maxAbs h
+  simp only [Thresh.normalize, hm, one_ne_zero, if_false]
+  congr 1
+  apply AMat.ext_get
+  intro i j
+  simp [AMat.map, AMat.get_ofFn]
+
+/-- `normalize` keeps the support and the signs: `binarize` commutes past it -/
+theorem binarize_normalize {W R : AMat ℚ n} (h : normalize W = some R) : binarize R = binarize W := by
+  have hne : maxAbs W ≠ 0 := by
+    intro h0; simp [Thresh.normalize, h0] at h
+  have hR : R = W.map fun w => w / maxAbs W := by
+    simp only [Thresh.normalize, if_neg hne] at h; exact (Option.some.inj h).symm
+  apply AMat.ext_get
+  intro i j
+  rw [binarize_spec, binarize_spec, hR]
+  simp only [AMat.map, AMat.get_ofFn]
+  by_cases hw : W.get i j = 0 <;> simp [hw, hne]
+
+example : ∃ R, normalize Wasy = some R ∧ normalize R = some R ∧ maxAbs R = 1 := by
+  obtain ⟨R, hR, _⟩ := normalize_max Wasy ⟨0, 1, by decide +kernel⟩
+  exact ⟨R, hR, normalize_idempotent hR, normalize_maxAbs hR⟩
 
 /-! ### invert -/
 
